@@ -251,7 +251,7 @@ def cases(draw):
         opts["n"] = 30
         files = files[:1]
     return {"format": fmt, "files": files, "opts": opts, "sep": draw(st.sampled_from([",", ",", ";", "|"])) if fmt == "csv" else ",",
-            "output": draw(st.sampled_from(["print", "csv", "json"])), "seed": draw(st.integers(0, 2 ** 31 - 1)),
+            "output": draw(st.sampled_from(["print", "csv", "json"])), "seed": draw(st.one_of(st.sampled_from([0, 0, 1]), st.integers(0, 2 ** 31 - 1))),
             "explicit_defaults": draw(st.booleans())}
 
 
